@@ -310,6 +310,41 @@ def onacceptTcp (family : Nat) (ip : Text) (port : Int) (sockPort : Int) (isl : 
       if isAscii ip then [.connect c (encodeConnect family ip port)]
       else [.raised]                        -- UnicodeEncodeError
 
+/-! ## Client: `onaccept_udp` with its per-source association table -/
+
+inductive UdpEv
+  | open_ (chan : Nat) (payload : Bytes)   -- `mux.send(chan, CMD_UDP_OPEN, b"%d" % listener.family)`
+  | data (chan : Nat) (payload : Bytes)    -- `mux.send(chan, CMD_UDP_DATA, hdr + data)`
+  | raised                                 -- UnicodeEncodeError
+deriving Repr, DecidableEq
+
+/-- `udp_by_src`: source key ↦ channel (the expiry time is left out: the model covers
+datagrams within one association lifetime). -/
+abbrev UdpTable := List (Nat × Nat)
+
+def UdpTable.find (t : UdpTable) (src : Nat) : Option Nat :=
+  match t with
+  | [] => none
+  | (s, c) :: r => if s = src then some c else UdpTable.find r src
+
+/-- `onaccept_udp` after `method.recv_udp` returned `(srcip, dstip, data)` (client.py:551-566,
+with the no-free-id return of fix 7d459d6).  `src` identifies the source `(ip, port)` tuple;
+`fresh = mux.next_channel()` is consulted only for an unknown source.  The header is built from
+*this* datagram's destination. -/
+def onacceptUdp (tbl : UdpTable) (family : Nat) (src : Nat) (ip : Text) (port : Int) (data : Bytes)
+    (fresh : Option Nat) : UdpTable × List UdpEv :=
+  match tbl.find src with
+  | some chan =>
+    if isAscii ip then (tbl, [.data chan (encodeUdp ip port data)]) else (tbl, [.raised])
+  | none =>
+    match fresh with
+    | none => (tbl, [])
+    | some 0 => (tbl, [])
+    | some chan =>
+      let tbl' := (src, chan) :: tbl
+      if isAscii ip then (tbl', [.open_ chan (decNat family), .data chan (encodeUdp ip port data)])
+      else (tbl', [.open_ chan (decNat family), .raised])
+
 /-! ## Server: `new_channel`, `udp_req` -/
 
 inductive ConnRes
